@@ -7,7 +7,7 @@
    harness side against the sha2 crate; the model produces the string.  Definitions only. *)
 From Coq Require Import List NArith Bool.
 From Coq Require Import Strings.Byte.
-From HN Require Import Base.Bytes Model.H2Frames Model.Hpack Model.H2Text.
+From HN Require Import Base.Bytes Model.H2Frames Model.Hpack Model.H2Text Model.H2Msg.
 Import ListNotations.
 Open Scope N_scope.
 
@@ -99,9 +99,9 @@ Inductive outcome (A : Type) := Val (a : A) | Panicked.
 Arguments Val {A} a.
 Arguments Panicked {A}.
 
-(* decode_headers + the filter/map of extract_pseudo_header_order: a fresh Decoder on the RAW
-   payload of the frame; headers whose name or value is not UTF-8 are dropped; a decoding error
-   yields the empty order *)
+(* decode_headers + the filter/map of extract_pseudo_header_order: a fresh Decoder on the header
+   block; headers whose name or value is not UTF-8 are dropped; a decoding error yields the empty
+   order *)
 Definition is_headers_pos (f : frame) : bool := (f_type f =? T_HEADERS) && (0 <? f_stream f).
 Definition pseudo_order_of_payload (payload : bytes) : outcome (list pseudo) :=
   match hpack_decode dt_new payload with
@@ -113,10 +113,38 @@ Definition pseudo_order_of_payload (payload : bytes) : outcome (list pseudo) :=
   | DPanic => Panicked
   | DFuel => Val []          (* unreachable, see HpackProofs.decode_loop_fuel *)
   end.
+
+(* frames.iter().position(..) and the frames after that position *)
+Fixpoint find_headers_pos (frames : list frame) : option (frame * list frame) :=
+  match frames with
+  | [] => None
+  | f :: r => if is_headers_pos f then Some (f, r) else find_headers_pos r
+  end.
+(* the `for next in frames.iter().skip(position + 1)` loop (fix 89b3393): CONTINUATION payloads of the
+   same stream are appended up to and including the one with END_HEADERS; the loop stops at the first
+   frame that is not such a CONTINUATION, or when the frames run out *)
+Fixpoint collect_continuations (sid : N) (frames : list frame) (block : bytes) : bytes :=
+  match frames with
+  | [] => block
+  | next :: r =>
+      if negb (f_type next =? T_CONTINUATION) || negb (f_stream next =? sid) then block
+      else let block := block ++ f_payload next in
+           if has_flag (f_flags next) FLAG_END_HEADERS then block else collect_continuations sid r block
+  end.
+(* extract_pseudo_header_order after fix 89b3393: Http2Parser::headers_fragment of the first HEADERS
+   frame on a non-zero stream (an error gives the empty order), plus the continuation fragments;
+   whatever has been collected is decoded, complete or not *)
 Definition extract_pseudo_header_order (frames : list frame) : outcome (list pseudo) :=
-  match find is_headers_pos frames with
-  | Some f => pseudo_order_of_payload (f_payload f)
+  match find_headers_pos frames with
   | None => Val []
+  | Some (frame, rest) =>
+      match headers_fragment frame with
+      | None => Val []
+      | Some fragment =>
+          pseudo_order_of_payload
+            (if has_flag (f_flags frame) FLAG_END_HEADERS then fragment
+             else collect_continuations (f_stream frame) rest fragment)
+      end
   end.
 
 (* ---------------- generate_fingerprint_string ---------------- *)
